@@ -184,31 +184,33 @@ namespace {
     return false;
   }
 
+  // what v->array() returns, computed without asking a cache or calling a generator: the truth of a SimGenerator
+  // (inner VirtualArrays still in it), or exactly what SliceGenerator::generate() computes from its content
+  ak::ContentPtr resolve(const ak::VirtualArray* v) {
+    ak::ArrayGeneratorPtr g = v->generator();
+    if (const SimGenerator* sg = dynamic_cast<const SimGenerator*>(g.get())) {
+      return sg->st_->truth;
+    }
+    if (const ak::SliceGenerator* sl = dynamic_cast<const ak::SliceGenerator*>(g.get())) {
+      ak::ContentPtr base = sl->content();
+      if (const ak::VirtualArray* inner = dynamic_cast<const ak::VirtualArray*>(base.get())) {
+        base = resolve(inner);
+      }
+      ak::Slice slice = sl->slice();
+      ak::SliceRange* range = slice.length() == 1 ? dynamic_cast<ak::SliceRange*>(slice.head().get()) : nullptr;
+      if (range != nullptr  &&  range->step() == 1) {
+        return base->getitem_range(range->start(), range->stop());
+      }
+      return base->getitem(slice);
+    }
+    throw HarnessError("materialise: VirtualArray with an unknown generator class");
+  }
+
   ak::ContentPtr materialise(const ak::ContentPtr& c) {
     ak::ContentPtr out;
     if (const ak::VirtualArray* v = dynamic_cast<const ak::VirtualArray*>(c.get())) {
-      ak::ArrayGeneratorPtr g = v->generator();
-      ak::ContentPtr inner;
-      if (const SimGenerator* sg = dynamic_cast<const SimGenerator*>(g.get())) {
-        inner = materialise(sg->st_->truth);
-      }
-      else if (const ak::SliceGenerator* sl = dynamic_cast<const ak::SliceGenerator*>(g.get())) {
-        // exactly what SliceGenerator::generate() computes, on the materialised content
-        ak::ContentPtr base = materialise(sl->content());
-        ak::Slice slice = sl->slice();
-        ak::SliceRange* range = slice.length() == 1 ? dynamic_cast<ak::SliceRange*>(slice.head().get()) : nullptr;
-        if (range != nullptr  &&  range->step() == 1) {
-          inner = base->getitem_range(range->start(), range->stop());
-        }
-        else {
-          inner = base->getitem(slice);
-        }
-        inner = materialise(inner);
-      }
-      else {
-        throw HarnessError("materialise: VirtualArray with an unknown generator class");
-      }
-      return inner;
+      // like ak.materialized: take what the VirtualArray generates, then go on replacing inside it
+      return materialise(resolve(v));
     }
     if (dynamic_cast<const ak::NumpyArray*>(c.get())  ||  dynamic_cast<const ak::EmptyArray*>(c.get())) {
       return c;
